@@ -16,10 +16,12 @@ UTC = dt.timezone.utc
 US = dt.timedelta(microseconds=1)
 EPOCH = dt.datetime(1970, 1, 1, tzinfo=UTC)
 
-ZONES = ["UTC", "America/Los_Angeles", "Australia/Lord_Howe", "Asia/Kathmandu"]
+ZONES = ["UTC", "America/Los_Angeles", "Australia/Lord_Howe", "Asia/Kathmandu", "Europe/London"]
 CLUSTERS = [
     ("epoch", dt.datetime(1970, 1, 1, tzinfo=UTC), None),
     ("la-fold-2021", dt.datetime(2021, 11, 7, 9, 0, 0, tzinfo=UTC), ("America/Los_Angeles", dt.datetime(2021, 11, 7, 1, 30))),
+    # the second reading of 01:30 Europe/London is at offset ZERO, yet not in UTC (and == the cluster centre)
+    ("london-fold-2021", dt.datetime(2021, 10, 31, 1, 30, 0, tzinfo=UTC), ("Europe/London", dt.datetime(2021, 10, 31, 1, 30))),
     ("y2038", dt.datetime(2038, 1, 19, 3, 14, 7, tzinfo=UTC), None),
     ("y2240", dt.datetime(2240, 12, 31, 23, 59, 59, 999998, tzinfo=UTC), None),
     ("y1700", dt.datetime(1700, 1, 1, tzinfo=UTC), None),
@@ -122,7 +124,7 @@ class C08(E1Check):
     def rule(self):
         return (
             "for each process TZ in {UTC, America/Los_Angeles, Australia/Lord_Howe, Asia/Kathmandu} x instant cluster (centre "
-            "+-1us; quick 4 clusters: epoch, LA DST fold 2021, 2038-01-19, 2240-12-31; thorough 11 incl. 1700, 1883 LMT switch, LA "
+            "+-1us; quick 5 clusters: epoch, LA DST fold 2021, London fold 2021 (offset zero, not UTC), 2038-01-19, 2240-12-31; thorough 12 incl. 1700, 1883 LMT switch, LA "
             "gap, Lord Howe gap/fold, 2106, pre-epoch) x {memory, CSV} x {auto_index on, off}: BFS of depth 3 over inserts of "
             "every instant of the cluster and of the centre in every representation (UTC, fixed offsets, zoneinfo, naive local, "
             "gap/fold wall-clock values, None), update_all/update with static and callable times in several representations, "
@@ -290,7 +292,7 @@ class C08(E1Check):
         import time
 
         t0 = time.time()
-        nclusters = 4 if self.tier == "quick" else len(CLUSTERS)
+        nclusters = 5 if self.tier == "quick" else len(CLUSTERS)
         total = explorer.Result()
         for zone in ZONES:
             for cl in range(nclusters):
